@@ -137,8 +137,12 @@ def compare(case, obs, reply):
                 out.append(('sem', 'op %d (%s): %s real=%d spec=%d' % (i, op, k, r[k], s[k])))
         if r['waiting'] != s['waiting']:
             out.append(('wait', 'op %d (%s): waiting real=%d spec=%d' % (i, op, r['waiting'], s['waiting'])))
-        if r['dcyc'] != s['dcyc']:
-            out.append(('cyc', 'op %d (%s): cycles real=%+d spec=%+d' % (i, op, r['dcyc'], s['dcyc'])))
+        if op == 'reset':
+            if r.get('cyc', 0) != 0:        # reset() zeroes the counter (whatever it was before)
+                out.append(('cyc', 'op %d (reset): cycle counter is %d after reset(), must be 0' % (i, r['cyc'])))
+        elif r['dcyc'] != s['dcyc']:
+            out.append(('cyc', 'op %d (%s): cycles real=%+d spec=%+d%s' % (
+                i, op, r['dcyc'], s['dcyc'], (' executing mn=%s' % s['mn']) if op == 'step' and i > 0 else '')))
         # accesses
         real_ms = Counter()
         for e in r['log']:
